@@ -296,6 +296,14 @@ class SimDevice:
             pkt = pkt[:5] + bytes([(pkt[5] & 0x0F) | ((opts["padnibble"] & 0xF) << 4)]) + pkt[6:]
         if opts.get("trunc") is not None:
             pkt = pkt[:opts["trunc"]]          # only the beginning of the reply makes it onto the wire
+        if opts.get("behind") == "data":
+            # a status report pushed right behind the handshake reply, in the same segment (encrypted under the new session key)
+            pkt += self.wrap(conn, self.ac.state_frame(0x03))
+        elif opts.get("behind") == "reply2":
+            # a second, genuine handshake reply (to a request the unit believes it has seen) right behind the first, same segment
+            nonce2 = self.next_nonce()
+            conn.session_keys.append(rc.v3_session_key(self.key, nonce2))
+            pkt += rc.v3_handshake_reply(1, rc.v3_handshake_reply_body(self.key, nonce2))
         conn.send_stream(pkt, delay=delay, cuts=opts.get("cuts"), gap=opts.get("gap", 0.0))
         if opts.get("then"):
             conn.hang_up(opts["then"])         # ... and the unit hangs up behind it
